@@ -12,7 +12,7 @@ import (
 // closed formulas over spec functions.
 func (V *Verifier) pureEnc() *fnEnc {
 	e := &fnEnc{V: V, lazySet: map[string]bool{}, vals: map[ssa.Value]string{}, tuples: map[ssa.Value][]string{},
-		anchors: map[string]int{}, params: map[string]tval{}, specConsts: map[string]string{}}
+		anchors: map[string]int{}, params: map[string]tval{}, specConsts: map[string]string{}, storeInfo: map[string]storeRec{}, allocNames: map[string]bool{}, allocOrder: map[string]int{}, declOrder: map[string]int{}, winOf: map[ssa.Value]string{}}
 	st := &state{reach: "true", heap: map[string]string{}, next: "0"}
 	e.entry = st
 	return e
